@@ -311,3 +311,177 @@ Proof. vm_compute. reflexivity. Qed.
 Lemma ntt_intt_basis_computed : map (fun a => ntt_pure (intt_pure a)) units64 = units64.
 Proof. vm_compute. reflexivity. Qed.
 
+
+Lemma ntt_pure_unit k : (k < 64)%nat -> ntt_pure (unit_vec 64 k) = eval_at_roots (unit_vec 64 k).
+Proof.
+  intros Hk. rewrite eval_at_roots_unit.
+  pose proof ntt_basis_computed as E. rewrite (pow_rows_spec ROOTS 64 0) in E.
+  unfold units64 in E. rewrite map_map in E.
+  apply (ext_in_map E). apply in_seq. lia.
+Qed.
+
+(* the coset NTT is evaluation at the 64 roots, in the slot order of the code *)
+Lemma ntt_pure_evaluates a : ring_elem a -> ntt_pure a = eval_at_roots a.
+Proof.
+  apply linear64_ext; [exact ntt_pure_linear | exact eval_at_roots_linear | exact ntt_pure_unit].
+Qed.
+
+Lemma intt_ntt_pure a : ring_elem a -> intt_pure (ntt_pure a) = a.
+Proof.
+  apply (linear64_ext (fun a => intt_pure (ntt_pure a)) (fun a => a)).
+  - apply linear64_compose; [exact ntt_pure_linear | exact intt_pure_linear].
+  - exact linear64_id.
+  - intros k Hk. pose proof intt_ntt_basis_computed as E. unfold units64 in E. rewrite map_map in E.
+    apply (ext_in_map E). apply in_seq. lia.
+Qed.
+Lemma ntt_intt_pure a : ring_elem a -> ntt_pure (intt_pure a) = a.
+Proof.
+  apply (linear64_ext (fun a => ntt_pure (intt_pure a)) (fun a => a)).
+  - apply linear64_compose; [exact intt_pure_linear | exact ntt_pure_linear].
+  - exact linear64_id.
+  - intros k Hk. pose proof ntt_intt_basis_computed as E. unfold units64 in E. rewrite map_map in E.
+    apply (ext_in_map E). apply in_seq. lia.
+Qed.
+
+Lemma ring_elem_eval_at_roots a : ring_elem (eval_at_roots a).
+Proof.
+  split.
+  - unfold eval_at_roots. rewrite map_length. apply length_ROOTS.
+  - unfold eval_at_roots. apply Forall_canon_map. intros; apply canonical_mod.
+Qed.
+Lemma ring_elem_ntt_pure a : ring_elem a -> ring_elem (ntt_pure a).
+Proof. intros H. rewrite ntt_pure_evaluates by exact H. apply ring_elem_eval_at_roots. Qed.
+Lemma Forall_canon_fold_inv tbl s a :
+  Forall canonical a -> Forall canonical (fold_left (pstep_inv tbl) s a).
+Proof.
+  revert a; induction s as [|e s IH]; intros a Ha; cbn [fold_left]; auto. apply IH.
+  destruct e as [[j jt] zi]. unfold pstep_inv.
+  apply Forall_canon_upd; [apply Forall_canon_upd; [exact Ha | apply fp_add_canon] | apply fp_mul_canon].
+Qed.
+Lemma ring_elem_intt_pure a : length a = 64%nat -> ring_elem (intt_pure a).
+Proof.
+  intros H. split.
+  - rewrite length_intt_pure. exact H.
+  - unfold intt_pure. apply Forall_canon_map. intros; apply fp_mul_canon.
+Qed.
+
+(* ------------------------------------------------------------------ the negacyclic convolution under evaluation *)
+Lemma zeval_zpoly_add x y r : zeval (zpoly_add x y) r = zeval x r + zeval y r.
+Proof.
+  revert y; induction x as [|a x IH]; intros [|b y]; cbn [zpoly_add zeval]; try ring.
+  rewrite IH. ring.
+Qed.
+Lemma zeval_zpoly_scale c x r : zeval (zpoly_scale c x) r = c * zeval x r.
+Proof.
+  induction x as [|a x IH]; cbn [zpoly_scale map zeval]; try ring.
+  unfold zpoly_scale in IH. rewrite IH. ring.
+Qed.
+Lemma zeval_zpoly_mul a b r : zeval (zpoly_mul a b) r = zeval a r * zeval b r.
+Proof.
+  induction a as [|x a IH]; cbn [zpoly_mul zeval]; try ring.
+  rewrite zeval_zpoly_add, zeval_zpoly_scale. cbn [zeval]. rewrite IH. ring.
+Qed.
+Lemma zeval_map_opp l r : zeval (map Z.opp l) r = - zeval l r.
+Proof. induction l as [|a l IH]; cbn [map zeval]; try ring. rewrite IH. ring. Qed.
+Lemma zeval_firstn_skipn n d r :
+  zeval d r = zeval (firstn n d) r + r ^ Z.of_nat n * zeval (skipn n d) r.
+Proof.
+  revert d; induction n as [|n IH]; intros d.
+  - change (Z.of_nat 0) with 0. rewrite Z.pow_0_r. cbn [firstn skipn zeval]. ring.
+  - destruct d as [|x d]; cbn [firstn skipn zeval]; try ring.
+    rewrite (IH d) at 1. rewrite Nat2Z.inj_succ, Z.pow_succ_r by lia. ring.
+Qed.
+Lemma zeval_map_mod l r : eqp (zeval (map (fun c => c mod P) l) r) (zeval l r).
+Proof.
+  induction l as [|a l IH]; cbn [map zeval]; [reflexivity|]. rewrite IH, mod_eqp. reflexivity.
+Qed.
+
+(* at a root r of X^64 + 1 the negacyclic convolution evaluates to the product of the evaluations *)
+Lemma zeval_negacyclic a b r :
+  pow_mod r 64 = P - 1 -> eqp (zeval (negacyclic a b) r) (zeval a r * zeval b r).
+Proof.
+  intros Hr. unfold negacyclic. rewrite zeval_map_mod. unfold nega_fold.
+  rewrite zeval_zpoly_add, zeval_map_opp, <- zeval_zpoly_mul.
+  set (d := zpoly_mul a b).
+  rewrite (zeval_firstn_skipn 64 d r) at 3.
+  assert (E : eqp (r ^ Z.of_nat 64) (-1)).
+  { unfold eqp. rewrite <- pow_mod_spec, Hr. reflexivity. }
+  rewrite E. apply eqp_of_eq. ring.
+Qed.
+
+Lemma length_zpoly_add x y : length (zpoly_add x y) = Nat.max (length x) (length y).
+Proof.
+  revert y; induction x as [|a x IH]; intros [|b y]; cbn [zpoly_add length]; auto.
+  rewrite IH. reflexivity.
+Qed.
+Lemma length_zpoly_mul a b :
+  a <> [] -> b <> [] -> length (zpoly_mul a b) = (length a + length b - 1)%nat.
+Proof.
+  intros Ha Hb. induction a as [|x a IH]; [congruence|].
+  cbn [zpoly_mul]. rewrite length_zpoly_add. unfold zpoly_scale. rewrite map_length. cbn [length].
+  destruct a as [|y a].
+  - cbn [zpoly_mul length]. destruct b; [congruence|]. cbn [length]. lia.
+  - rewrite IH by discriminate. cbn [length]. destruct b; [congruence|]. cbn [length]. lia.
+Qed.
+Lemma ring_elem_negacyclic a b : length a = 64%nat -> length b = 64%nat -> ring_elem (negacyclic a b).
+Proof.
+  intros Ha Hb. split.
+  - unfold negacyclic, nega_fold. rewrite map_length, length_zpoly_add, map_length, firstn_length, skipn_length.
+    rewrite length_zpoly_mul.
+    + rewrite Ha, Hb. reflexivity.
+    + intros ->; discriminate.
+    + intros ->; discriminate.
+  - unfold negacyclic. apply Forall_canon_map_mod.
+Qed.
+
+(* pointwise product in the NTT domain = NTT of the negacyclic convolution *)
+Lemma hadamard_ntt_pure a b :
+  ring_elem a -> ring_elem b -> map2 fp_mul (ntt_pure a) (ntt_pure b) = ntt_pure (negacyclic a b).
+Proof.
+  intros Ha Hb. rewrite (ntt_pure_evaluates a Ha), (ntt_pure_evaluates b Hb).
+  rewrite ntt_pure_evaluates by (apply ring_elem_negacyclic; apply ring_elem_length; assumption).
+  unfold eval_at_roots. rewrite map2_same_map. apply map_ext_in. intros r Hr.
+  pose proof (zeval_negacyclic a b r (ROOTS_neg_one r Hr)) as E. unfold eqp in E. rewrite E.
+  unfold fp_mul. eqp_ring.
+Qed.
+
+(* ring_mul_negacyclic: the ring product of the implementation is the negacyclic convolution, for ALL pairs *)
+Theorem ring_mul_negacyclic a b :
+  ring_elem a -> ring_elem b -> re_mul a b = Some (negacyclic a b).
+Proof.
+  intros Ha Hb. pose proof (ring_elem_length a Ha) as La. pose proof (ring_elem_length b Hb) as Lb.
+  unfold re_mul. rewrite (coset_ntt_total a La), (coset_ntt_total b Lb).
+  rewrite coset_intt_total by (rewrite length_map2; rewrite !length_ntt_pure; congruence).
+  f_equal. rewrite (hadamard_ntt_pure a b Ha Hb).
+  apply intt_ntt_pure. apply ring_elem_negacyclic; assumption.
+Qed.
+
+Lemma ROOTS_def : ROOTS = map (ntt_root psi) (seq 0 64).
+Proof. Transparent ROOTS. reflexivity. Opaque ROOTS. Qed.
+Lemma psi_def : psi = nth 32 PSI_BITREV 0.
+Proof. Transparent psi. reflexivity. Opaque psi. Qed.
+
+(* coset_ntt_evaluates: slot k of the forward transform is a(psi^(2 bitrev6(k) + 1)) *)
+Theorem coset_ntt_evaluates a :
+  ring_elem a ->
+  coset_ntt_noswap_64 a = Some (map (fun k => zeval a (ntt_root (nth 32 PSI_BITREV 0) k) mod P) (seq 0 64)).
+Proof.
+  intros Ha. rewrite (coset_ntt_total a (ring_elem_length a Ha)). f_equal.
+  rewrite (ntt_pure_evaluates a Ha). unfold eval_at_roots. rewrite ROOTS_def, map_map, psi_def. reflexivity.
+Qed.
+Theorem intt_ntt_id a :
+  ring_elem a ->
+  match coset_ntt_noswap_64 a with Some f => coset_intt_noswap_64 f = Some a | None => False end.
+Proof.
+  intros Ha. rewrite (coset_ntt_total a (ring_elem_length a Ha)).
+  rewrite coset_intt_total by (rewrite length_ntt_pure; apply ring_elem_length; exact Ha).
+  f_equal. apply intt_ntt_pure; exact Ha.
+Qed.
+Theorem ntt_intt_id a :
+  ring_elem a ->
+  match coset_intt_noswap_64 a with Some f => coset_ntt_noswap_64 f = Some a | None => False end.
+Proof.
+  intros Ha. rewrite (coset_intt_total a (ring_elem_length a Ha)).
+  rewrite coset_ntt_total by (rewrite length_intt_pure; apply ring_elem_length; exact Ha).
+  f_equal. apply ntt_intt_pure; exact Ha.
+Qed.
